@@ -15,7 +15,20 @@ Streams
                     float32 / float64 exp underflow thresholds), large positive unnormalised scores
                     (beyond the exp overflow thresholds), one dominant sample, huge spread, exact
                     ties, -inf entries (zero-probability samples); float32 and float64.
-  every stream    : memory layout of every tensor argument (contiguous / transposed storage / slice
+  big             : size-triggered code paths. Sequence dimensions R / H at and around 63..66, 127..130,
+                    255..257, 200..330 and 9..62 (few sequences), in every stream (rate, normalised rate,
+                    per-prefix table, loss; both cost branches - unequal costs up to 130 x 130). References
+                    that fill the whole dimension, that carry their eos in the very last slot, and short
+                    eos-terminated ones in the same batch; every hypothesis is derived from its reference
+                    (prefix / suffix / sub-sequence / appended / prepended / inserted / substituted /
+                    shifted) so that the optimal alignment starts or ends with deletions / insertions; thin
+                    shapes (one dimension 0..3). The Lean driver evaluates these with the one-pass form of
+                    the model (proved equal to the literal one: C02_fast_*).
+  wide            : the other size measure - N (or the sample dimension M of the loss) at and around
+                    63..65, 127..129, 255..257, ~1000, short ragged sequences; an empty batch (N = 0).
+  every stream    : token ids relabelled injectively (35 %) to ids around 2^8, 2^11, 2^15/16, 2^24, 2^31/32,
+                    2^53, 2^63 and to negative ids; warn passed False / True / left to its default;
+                    memory layout of every tensor argument (contiguous / transposed storage / slice
                     of a wider buffer / every-other-element stride), int32 and int64 tokens, options
                     passed explicitly or left to the documented defaults, arguments not modified.
   malformed       : wrong shapes / sample counts -> the documented error class (8 fixed calls).
@@ -56,6 +69,17 @@ NEG_OFFSETS = [-30, -86, -89, -96, -104, -120, -200, -700, -712, -746, -1000, -1
 POS_OFFSETS = [30, 87, 90, 120, 700, 712, 1000, 10000, 100000]
 LP_CLASSES = ["ordinary", "ordinary", "normalised", "very_negative", "very_negative", "large_positive",
               "dominant", "spread", "ties", "neg_inf"]
+# size-triggered code paths: sequence dimensions at and around the powers of two where an
+# implementation may switch strategy (chunking, serial fall-backs for big intermediates, ...)
+BIG_EDGES = [63, 64, 65, 66, 127, 128, 129, 130]
+BIG_EDGES_2 = [255, 256, 257]
+WIDE_N = [63, 64, 65, 127, 128, 129, 255, 256, 257]
+# token ids are only ever compared for equality: any injective relabelling must leave every result
+# unchanged. Offsets straddle the points where a narrower or a floating representation of the ids
+# would merge or wrap distinct ids (uint8 / int16 / uint16 / int32 range, integer exactness of float16
+# 2^11, float32 2^24, float64 2^53); "neg": negative ids (t -> -1 - t).
+TOK_OFFSETS_32 = [254, 2047, 32766, 65534, 2 ** 24 - 2, 2 ** 31 - 48]
+TOK_OFFSETS_64 = [2 ** 31 - 2, 2 ** 32 - 2, 2 ** 53 - 2, 2 ** 63 - 48]
 DEFAULTS = {"eos": None, "include_eos": True, "norm": True, "batch_first": False, "ins": "1", "del": "1",
             "sub": "1", "padding": -100, "exclude_last": False, "sub_avg": True, "reduction": "mean"}
 
@@ -113,6 +137,15 @@ class C02(PropertyCheck):
             "shapes: 150 (thorough 1500) argument-shape sets of rank 1..4, well-formed or damaged in 1-2 places "
             "(dimension added / dropped / swapped / resized, unknown reduction, one sample) -> accepted "
             "with the documented result shape, or RuntimeError. "
+            "big: 24 (thorough 150) batches with a sequence dimension at/around 63..66, 127..130, 255..257, "
+            "200..260 (thorough ..330) or 9..62 in R, in H or in both, the other dimension equal / +-1..3 / a "
+            "third shorter or longer / 0..3, N <= 4 (loss: N*M <= 4), kinds scalar / prefix / mer, equal costs "
+            "70% (unequal only up to 130 x 130), references full / eos in the last slot / short / empty in one "
+            "batch, hypotheses = prefix, suffix, sub-sequence, append, prepend, insert, substitute, shift of "
+            "the reference transcript or random; wide: 12 (thorough 40) batches with N in {63..65, 127..129, "
+            "255..257, 1000..1100, 0} (loss: M in {16,17,33,64,65} or N in {33,64,65,129}), R,H <= 4. "
+            "every stream: token ids relabelled (35%) by offsets 254, 2047, 32766, 65534, 2^24-2, 2^31-48 "
+            "(int64 also 2^31-2, 2^32-2, 2^53-2, 2^63-48) or t -> -1-t; warn False / True / default. "
             "non-trivial: some column has both cut sequences non-empty, not identical; distinct by "
             "(cut pairs, costs, option cell, memory layout, log_probs classes)")
     assumptions = [
@@ -123,6 +156,10 @@ class C02(PropertyCheck):
         "without torch (exact rational max-shift, 60-digit decimal exp, rounded to 40 decimal places) "
         "and the MER stream compares with rtol 1e-5 / atol 5e-6 (float32 / float64 rounding of the "
         "implementation's exp, sum, product and mean() / sum() order is not modelled)",
+        "the loss comparison's absolute tolerance grows with the magnitude of the error rates "
+        "(max(5e-6, 2^-22 * largest possible error rate of the case * (N for reduction='sum'))): the float32 "
+        "rounding of mean(er) survives the cancellation in er - mean(er); on the original small domain "
+        "this is 5e-6 as before",
         "the repairs fixes/C01-lens-from-eos-empty.diff and fixes/C01-prefix-exclude-last-empty-hyp.diff "
         "(owned by C01) are part of the modelled behaviour for zero-size dimensions; "
         "fixes/C02-mer-strided-inputs.diff for arguments whose batch x sample dimensions cannot be "
@@ -165,8 +202,8 @@ class C02(PropertyCheck):
             return rng.choice(OTHER_TRIPLES)
         return (rng.choice(COST_POOL), rng.choice(COST_POOL), rng.choice(COST_POOL))
 
-    def _er_case(self, rng, maxlen, kind=None, small=False):
-        N = rng.randint(1, 4)
+    def _er_case(self, rng, maxlen, kind=None, small=False, N=None):
+        N = rng.randint(1, 4) if N is None else N
         R = rng.randint(0, maxlen) if rng.random() < 0.93 else 0
         H = rng.randint(0, maxlen) if rng.random() < 0.93 else 0
         A = rng.randint(1, 4)
@@ -187,7 +224,7 @@ class C02(PropertyCheck):
             "kind": kind, "entry": rng.choice(["functional", "module"]),
             "N": N, "R": R, "H": H, "batch_first": bf,
             "ref": layout(refc, bf, R), "hyp": layout(hypc, bf, H),
-            "eos": eos, "include_eos": rng.random() < 0.5, "norm": rng.random() < 0.5,
+            "eos": eos, "eos_mode": eos_mode, "include_eos": rng.random() < 0.5, "norm": rng.random() < 0.5,
             "ins": ins, "del": dl, "sub": sub,
         }
         if kind == "prefix":
@@ -202,6 +239,11 @@ class C02(PropertyCheck):
         so that the default value is frequent)"""
         case["mem"] = rng.choice(MEMS)
         case["tok_dtype"] = rng.choice(["int64", "int64", "int32"])
+        # warn: passed as False / True, or left to its default (True); warnings are not part of the result
+        case["warn"] = rng.choice(["false", "false", "false", "true", "default"])
+        if rng.random() < 0.35:
+            offs = TOK_OFFSETS_32 + (TOK_OFFSETS_64 if case["tok_dtype"] == "int64" else [])
+            _relabel(case, rng.choice(offs + ["neg"]))
         case["omit_defaults"] = rng.random() < 0.3
         if case["omit_defaults"]:
             dflt = dict(DEFAULTS, include_eos=case["kind"] != "scalar")
@@ -246,9 +288,9 @@ class C02(PropertyCheck):
                         case["padding"] = -100
                     yield case
 
-    def _mer_case(self, rng, maxlen):
-        N = rng.randint(1, 3)
-        M = rng.randint(2, 4)
+    def _mer_case(self, rng, maxlen, N=None, M=None):
+        N = N or rng.randint(1, 3)
+        M = M or rng.randint(2, 4)
         R = rng.randint(0, maxlen)
         H = rng.randint(0, maxlen)
         A = rng.randint(2, 4)
@@ -271,7 +313,7 @@ class C02(PropertyCheck):
             "kind": "mer", "entry": rng.choice(["functional", "module"]),
             "N": N, "M": M, "R": R, "H": H, "batch_first": bf, "ref_dim": ref_dim,
             "ref": ref, "hyp": hyp, "log_probs": lp, "lp_dtype": lp_dtype, "lp_classes": lp_classes,
-            "eos": eos, "include_eos": rng.random() < 0.5, "norm": rng.random() < 0.6,
+            "eos": eos, "eos_mode": eos_mode, "include_eos": rng.random() < 0.5, "norm": rng.random() < 0.6,
             "sub_avg": rng.random() < 0.5, "reduction": rng.choice(["mean", "sum", "none"]),
             "ins": ins, "del": dl, "sub": sub,
         }
@@ -323,6 +365,193 @@ class C02(PropertyCheck):
             rows.append(row)
         return rows, dtype, classes
 
+
+    # ------------------------------------------------------------------ size-triggered paths
+    def _big_size(self, rng, tier, i):
+        """the size of the 'boundary' dimension of the i-th big case: every run visits every class"""
+        sched = [65, 64, 129, 63, 128, "200+", 66, 127, 130, "256", "mid", "200+"]
+        s = sched[i % len(sched)] if i < 2 * len(sched) else rng.choice(sched)
+        if s == "200+":
+            return rng.randint(200, 260 if tier == "quick" else 330)
+        if s == "256":
+            return rng.choice(BIG_EDGES_2)
+        if s == "mid":
+            return rng.randint(9, 62)
+        return s
+
+    @staticmethod
+    def _relate(rng, base, rel, k, toks):
+        """a hypothesis transcript in a given relation to the reference transcript `base` (the optimal
+        alignment then starts / ends with deletions or insertions, or has them at known places)"""
+        L = len(base)
+        k = min(max(k, 1), L) if L else 0
+        new = lambda n: [rng.choice(toks) for _ in range(n)]
+        if rel == "equal" or L == 0 and rel not in ("append", "prepend", "insert", "random"):
+            return list(base)
+        if rel == "prefix":          # trailing deletions
+            return list(base[:L - k])
+        if rel == "suffix":          # leading deletions
+            return list(base[k:])
+        if rel == "subseq":          # deletions at random places
+            drop = set(rng.sample(range(L), k))
+            return [t for i, t in enumerate(base) if i not in drop]
+        if rel == "append":          # trailing insertions
+            return list(base) + new(max(k, 1))
+        if rel == "prepend":         # leading insertions
+            return new(max(k, 1)) + list(base)
+        if rel == "insert":          # insertions at random places
+            out = list(base)
+            for _ in range(max(k, 1)):
+                out.insert(rng.randint(0, len(out)), rng.choice(toks))
+            return out
+        if rel == "subst":
+            out = list(base)
+            for i in rng.sample(range(L), k):
+                out[i] = rng.choice([t for t in toks if t != out[i]] or toks)
+            return out
+        if rel == "shift":           # leading deletions + trailing insertions
+            return list(base[k:]) + new(k)
+        if rel == "shift_back":      # leading insertions + trailing deletions
+            return new(k) + list(base[:L - k])
+        return new(max(0, L + rng.choice([-k, 0, k])))   # "random"
+
+    def _big_pairs(self, rng, P, R, H, eos_mode, eos, A, groups=None):
+        """P padded (ref column, hyp column) pairs for dimensions R and H. References that fill the
+        whole dimension, that end in an eos in the very last slot, and short eos-terminated ones occur
+        in the same batch; every hypothesis is derived from its reference's transcript.
+        groups: list of P group ids; pairs of one group share the reference column (2-D ref of the loss)"""
+        toks = [a for a in range(A) if a != eos]
+        everything = list(range(A))
+        d = H - R
+
+        def pad(seq, D):
+            seq = list(seq[:D])
+            if len(seq) == D:
+                return seq
+            if eos_mode == "in":
+                return seq + [eos] + [rng.choice(everything) for _ in range(D - len(seq) - 1)]
+            return seq + [rng.choice(toks) for _ in range(D - len(seq))]   # no eos: the dimension is the length
+
+        # column 0 fills the dimension, column 1 fills it or carries its eos in the very last slot; the
+        # others are short (eos-terminated) when the data has an eos
+        if eos_mode == "in":
+            profiles = ["full", rng.choice(["full", "eos_last", "eos_last"])] + \
+                [rng.choice(["short", "short", "near", "empty", "eos_last"]) for _ in range(P)]
+        else:
+            profiles = ["full"] * (P + 2)
+        # relations by the sign of H - R. The first two (in random order) put the forced deletions /
+        # insertions at the END resp. the START of the alignment: they go to the two full-length columns
+        if d < 0:
+            first, rest = ["prefix", "suffix"], ["subseq", "shift_back", "random", "prefix"]
+        elif d == 0:
+            first, rest = ["shift", "shift_back"], ["subst", "equal", "random", "subst"]
+        else:
+            first, rest = ["append", "prepend"], ["insert", "shift", "random", "append"]
+        rng.shuffle(first)
+        rng.shuffle(rest)
+        order = first + rest
+        refs, pairs, rels = {}, [], []
+        for p in range(P):
+            g = groups[p] if groups else p
+            if g not in refs:
+                prof = profiles[len(refs)]
+                ln = {"full": R, "eos_last": max(R - 1, 0), "near": max(R - rng.randint(2, 4), 0),
+                      "empty": 0}.get(prof, rng.randint(0, max(R - 2, 0)))
+                refs[g] = ([rng.choice(toks) for _ in range(ln)], prof)
+            base, prof = refs[g]
+            rel = order[p % len(order)]
+            k = abs(d) if d and rel not in ("shift", "shift_back") else rng.randint(1, 3)
+            hyp_t = self._relate(rng, base, rel, k, toks)
+            pairs.append((pad(base, R), pad(hyp_t, H)))
+            rels.append(prof + "/" + rel)
+        return pairs, rels
+
+    def _big_dims(self, rng, size):
+        which = rng.choice(["R", "R", "H", "both", "thin"])
+        far = max(size // 3, 1)
+        d = rng.choice([-1, -1, -1, -2, -3, 0, 0, 1, 1, 2, -far, far, -(size - 2)])
+        if which == "R":
+            R, H = size, max(0, size + d)
+        elif which == "H":
+            H, R = size, max(0, size - d)
+        elif which == "both":
+            R, H = size, size + rng.choice([-1, 0, 0, 1])
+        elif rng.random() < 0.5:     # thin: one long dimension, the other very short
+            R, H = size, rng.randint(0, 3)
+        else:
+            R, H = rng.randint(0, 3), size
+        return R, H
+
+    def _big_case(self, rng, tier, i):
+        """sequence dimensions of tens to hundreds of positions, few sequences (see BIG_EDGES)"""
+        size = self._big_size(rng, tier, i)
+        R, H = self._big_dims(rng, size)
+        kind = ["scalar", "prefix", "mer", "scalar", "prefix", "scalar", "mer"][i % 7]
+        eos_mode = rng.choice(["unset", "in", "in", "absent"])
+        A = rng.choice([3, 3, 4, 5, 30])
+        eos = None if eos_mode == "unset" else (rng.randrange(A) if eos_mode == "in" else ABSENT_EOS)
+        ins, dl, sub = rng.choice(EQUAL_TRIPLES) if rng.random() < 0.7 else self._costs(rng)
+        if not (F(ins) == F(dl) == F(sub)) and R * H > 130 * 130:
+            # the implementation's mistakes branch is a python double loop over R x H: keep it affordable
+            ins, dl, sub = rng.choice(EQUAL_TRIPLES)
+        bf = rng.random() < 0.5
+        if kind == "mer":
+            N, M = rng.choice([(1, 2), (1, 3), (2, 2)])
+            ref_dim = rng.choice([2, 3])
+            groups = [n if ref_dim == 2 else n * M + m for n in range(N) for m in range(M)]
+            pairs, rels = self._big_pairs(rng, N * M, R, H, eos_mode, eos, A, groups)
+            hyps = [[pairs[n * M + m][1] for m in range(M)] for n in range(N)]
+            if ref_dim == 2:
+                refs = [pairs[n * M][0] for n in range(N)]
+                ref = refs if bf else [[refs[n][r] for n in range(N)] for r in range(R)]
+            else:
+                refs = [[pairs[n * M + m][0] for m in range(M)] for n in range(N)]
+                ref = refs if bf else [[[refs[n][m][r] for m in range(M)] for n in range(N)] for r in range(R)]
+            hyp = hyps if bf else [[[hyps[n][m][h] for m in range(M)] for n in range(N)] for h in range(H)]
+            lp, lp_dtype, lp_classes = self._log_probs(rng, N, M)
+            case = {"kind": "mer", "entry": rng.choice(["functional", "module"]),
+                    "N": N, "M": M, "R": R, "H": H, "batch_first": bf, "ref_dim": ref_dim,
+                    "ref": ref, "hyp": hyp, "log_probs": lp, "lp_dtype": lp_dtype, "lp_classes": lp_classes,
+                    "eos": eos, "eos_mode": eos_mode, "include_eos": rng.random() < 0.5,
+                    "norm": rng.random() < 0.6,
+                    "sub_avg": rng.random() < 0.5, "reduction": rng.choice(["mean", "sum", "none"]),
+                    "ins": ins, "del": dl, "sub": sub}
+        else:
+            N = rng.randint(2, 4) if R * H <= 130 * 130 else rng.randint(1, 2)
+            pairs, rels = self._big_pairs(rng, N, R, H, eos_mode, eos, A)
+            case = {"kind": kind, "entry": rng.choice(["functional", "module"]),
+                    "N": N, "R": R, "H": H, "batch_first": bf,
+                    "ref": layout([p[0] for p in pairs], bf, R), "hyp": layout([p[1] for p in pairs], bf, H),
+                    "eos": eos, "eos_mode": eos_mode, "include_eos": rng.random() < 0.5,
+                    "norm": rng.random() < 0.5, "ins": ins, "del": dl, "sub": sub}
+            if kind == "prefix":
+                case["exclude_last"] = rng.random() < 0.5
+                case["padding"] = rng.choice([-100, -1, 0, 7])
+        costs = (case["ins"], case["del"], case["sub"])
+        self._call_style(rng, case)
+        if (case["ins"], case["del"], case["sub"]) != costs and R * H > 130 * 130:
+            case["ins"], case["del"], case["sub"] = "1", "1", "1"   # see above
+        case.update(stream="big", big=True, relations=rels)
+        return case
+
+    def _wide_case(self, rng, tier, i):
+        """the OTHER size measure: many sequences (batch / sample dimension around the powers of two
+        and ~1000), short ones"""
+        kind = ["scalar", "prefix", "mer"][i % 3]
+        if kind == "mer":
+            if rng.random() < 0.5:
+                N, M = rng.randint(1, 2), rng.choice([16, 17, 33, 64, 65])
+            else:
+                N, M = rng.choice([33, 64, 65, 129]), rng.randint(2, 3)
+            case = self._mer_case(rng, 3, N=N, M=M)
+        else:
+            N = rng.choice(WIDE_N + [rng.randint(1000, 1100)] * 3) if i % 2 else rng.choice(WIDE_N)
+            if i % 12 == 3 or rng.random() < 0.05:
+                N = 0           # an empty batch: an empty result of the documented shape
+            case = self._er_case(rng, 4, kind=kind, N=N)
+        case["stream"] = "wide"
+        return case
+
     def _malformed(self, rng):
         yield {"kind": "malformed", "what": "batch_mismatch", "expect": "RuntimeError"}
         yield {"kind": "malformed", "what": "ref_1d", "expect": "RuntimeError"}
@@ -367,11 +596,11 @@ class C02(PropertyCheck):
 
     def cases(self, rng, tier):
         if tier == "quick":
-            n_er, n_mer, maxlen, n_sh = 420, 170, 6, 150
+            n_er, n_mer, maxlen, n_sh, n_big, n_wide = 420, 170, 6, 150, 24, 12
         elif tier == "thorough":
-            n_er, n_mer, maxlen, n_sh = 5000, 1500, 8, 1500
+            n_er, n_mer, maxlen, n_sh, n_big, n_wide = 5000, 1500, 8, 1500, 150, 40
         else:  # search
-            n_er, n_mer, maxlen, n_sh = 6000, 800, 7, 300
+            n_er, n_mer, maxlen, n_sh, n_big, n_wide = 6000, 800, 7, 300, 120, 30
         yield from self._malformed(rng)
         for _ in range(n_sh):
             yield self._shapes_case(rng)
@@ -384,6 +613,12 @@ class C02(PropertyCheck):
                 yield self._er_case(rng, maxlen if i % 5 else min(maxlen, 4))
             if i < n_mer and i % 1 == 0:
                 yield self._mer_case(rng, min(maxlen, 5))
+            every = max(n_er // n_big, 1)
+            if i % every == 0 and i // every < n_big:
+                yield self._big_case(rng, tier, i // every)
+            every = max(n_er // n_wide, 1)
+            if i % every == every // 2 and i // every < n_wide:
+                yield self._wide_case(rng, tier, i // every)
             if not done_ex:
                 for _ in range(2 if tier == "quick" else 1):
                     try:
@@ -421,13 +656,14 @@ class C02(PropertyCheck):
         if case["kind"] == "prefix":
             kw.update(padding=case["padding"], exclude_last=case["exclude_last"])
         kw = self._kwargs(case, kw)
+        kw.update(_warn_kw(case))
         if case["kind"] == "prefix":
             if case["entry"] == "module":
-                return Md.PrefixErrorRates(warn=False, **kw)(ref, hyp)
-            return Fn.prefix_error_rates(ref, hyp, warn=False, **kw)
+                return Md.PrefixErrorRates(**kw)(ref, hyp)
+            return Fn.prefix_error_rates(ref, hyp, **kw)
         if case["entry"] == "module":
-            return Md.ErrorRate(warn=False, **kw)(ref, hyp)
-        return Fn.error_rate(ref, hyp, warn=False, **kw)
+            return Md.ErrorRate(**kw)(ref, hyp)
+        return Fn.error_rate(ref, hyp, **kw)
 
     def run_impl(self, case):
         import warnings
@@ -470,9 +706,9 @@ class C02(PropertyCheck):
                   reduction=case["reduction"])
         ckw = self._kwargs(case, kw)
         if case["entry"] == "module":
-            out = Md.MinimumErrorRateLoss(**ckw)(lp, ref, hyp, warn=False)
+            out = Md.MinimumErrorRateLoss(**ckw)(lp, ref, hyp, **_warn_kw(case))
         else:
-            out = Fn.minimum_error_rate_loss(lp, ref, hyp, warn=False, **ckw)
+            out = Fn.minimum_error_rate_loss(lp, ref, hyp, **_warn_kw(case), **ckw)
         unchanged = bool(lp.equal(before[0]) and ref.equal(before[1]) and hyp.equal(before[2]))
         # the error rate of every documented pair, one isolated pair per call
         ers = []
@@ -553,6 +789,8 @@ class C02(PropertyCheck):
         base = {k: case[k] for k in ("ref", "hyp", "N", "batch_first", "eos", "include_eos", "norm",
                                      "ins", "del", "sub")}
         base["brute_max"] = 4 if case.get("stream") == "exhaustive" else 3
+        if case.get("big"):
+            base["big"] = True
         if case["kind"] == "mer":
             base.update(M=case["M"], ref_dim=case["ref_dim"], sub_avg=case["sub_avg"],
                         reduction=case["reduction"], w=self._softmax(case))
@@ -578,8 +816,9 @@ class C02(PropertyCheck):
             a, b = _flat(impl["out"]), _flat(model["model"])
             if len(a) != len(b):
                 return [f"loss shape differs: impl {impl['shape']} model has {len(b)} entries"]
+            atol = _mer_atol(case, model["spec"])
             for i, (x, y) in enumerate(zip(a, b)):
-                if not _close(x, y):
+                if not _close(x, y, atol=atol):
                     out.append(f"loss[{i}] impl={_show(x)} model={_show(y)}")
             return out[:4]
         exp = _map(model["model"], lambda q: frac_str(f32_quot(q)))
@@ -688,6 +927,7 @@ class C02(PropertyCheck):
             dev = max(abs(float(w[n][m]) - tw[n][m]) for n in range(N) for m in range(M))
             st["torch_softmax_max_abs_dev_from_oracle"] = max(st.get("torch_softmax_max_abs_dev_from_oracle", 0.0), dev)
             er = [[F(x) for x in row] for row in impl["pair_ers"]]
+            atol = _mer_atol(case, spec)
             el = []
             for n in range(N):
                 mu = sum(er[n]) / M if case["sub_avg"] else 0
@@ -697,7 +937,7 @@ class C02(PropertyCheck):
                     return fails + [(f"loss shape {impl['shape']} != [{N},{M}]", "C02.mer.shape")]
                 for n in range(N):
                     for m in range(M):
-                        if not _close(impl["out"][n][m], el[n][m]):
+                        if not _close(impl["out"][n][m], el[n][m], atol=atol):
                             fails.append((f"loss[{n}][{m}]={_show(impl['out'][n][m])} != softmax*(er-mean)="
                                           f"{float(el[n][m])!r} (log_probs row {n}: "
                                           f"{[_show(x) for x in case['log_probs'][n]]}, oracle softmax "
@@ -706,7 +946,7 @@ class C02(PropertyCheck):
                 tot = sum(sum(r) for r in el)
                 if case["reduction"] == "mean":
                     tot = tot / (N * M)
-                if impl["shape"] != [] or not _close(impl["out"], tot):
+                if impl["shape"] != [] or not _close(impl["out"], tot, atol=atol):
                     fails.append((f"loss={_show(impl['out'])} != {case['reduction']} of softmax*(er-mean)="
                                   f"{float(tot)!r} (log_probs {[[_show(x) for x in r] for r in case['log_probs']]})",
                                   "C02.mer.value"))
@@ -784,23 +1024,29 @@ class C02(PropertyCheck):
         t = ["kind=" + case["kind"], "entry=" + case.get("entry", "functional"),
              "costs=" + ("equal(shortcut)" if equal else
                          "ins+del=sub" if F(case["ins"]) + F(case["del"]) == F(case["sub"]) else "unequal"),
-             "eos=" + ("unset" if case["eos"] is None else "absent" if case["eos"] == ABSENT_EOS else "in"),
+             "eos=" + (case["eos_mode"] if "eos_mode" in case else
+                       "unset" if case["eos"] is None else "absent" if case["eos"] == ABSENT_EOS else "in"),
              f"include_eos={case['include_eos']}", f"norm={case['norm']}", f"batch_first={case['batch_first']}",
-             f"R={case['R']}", f"H={case['H']}", f"N={case['N']}"]
+             "R=" + _size_class(case["R"]), "H=" + _size_class(case["H"]), "N=" + _size_class(case["N"])]
         if case["kind"] == "prefix":
             t.append(f"exclude_last={case['exclude_last']}")
-        t += ["mem=" + case.get("mem", "contig"), "tok_dtype=" + case.get("tok_dtype", "int64"),
+        t += ["warn=" + case.get("warn", "false"), "token_ids=" + _relabel_class(case.get("tok_relabel")),
+              "mem=" + case.get("mem", "contig"), "tok_dtype=" + case.get("tok_dtype", "int64"),
               f"omit_defaults={bool(case.get('omit_defaults'))}"]
         if case["kind"] == "mer":
-            t += [f"M={case['M']}", f"ref_dim={case['ref_dim']}", f"sub_avg={case['sub_avg']}",
+            t += ["M=" + _size_class(case["M"]), f"ref_dim={case['ref_dim']}", f"sub_avg={case['sub_avg']}",
                   "reduction=" + case["reduction"], "lp_dtype=" + case.get("lp_dtype", "float32")]
             t += sorted({"log_probs=" + c for c in case.get("lp_classes", ["ordinary"])})
             fin = [abs(float(F(x))) for row in case["log_probs"] for x in row if x != "-inf"]
             big = max(fin) if fin else 0
             t.append("log_probs_magnitude=" + ("<=10" if big <= 10 else "<=88" if big <= 88 else
                                                "<=745" if big <= 745 else ">745"))
-        if case.get("stream") == "exhaustive":
-            t.append("stream=exhaustive")
+        if case.get("stream"):
+            t.append("stream=" + case["stream"])
+        for rel in case.get("relations", ()):
+            prof, how = rel.split("/")
+            t += ["big:ref=" + prof, "big:hyp=" + how]
+        t = sorted(set(t), key=t.index)
         prs = self._pairs(case)
         if any(not r for r, _ in prs):
             t.append("has_empty_ref")
@@ -813,7 +1059,7 @@ class C02(PropertyCheck):
             if case["kind"] == "mer":
                 for k, v in (("reduction", "none"), ("sub_avg", False), ("norm", False), ("entry", "functional"),
                              ("mem", "contig"), ("tok_dtype", "int64"), ("omit_defaults", False),
-                             ("lp_dtype", "float32")):
+                             ("warn", "false"), ("lp_dtype", "float32")):
                     if case.get(k, v) != v:
                         c = dict(case)
                         c[k] = v
@@ -855,13 +1101,57 @@ class C02(PropertyCheck):
         if H > 0:
             yield rebuild(rc, [c[:-1] for c in hc])
             yield rebuild(rc, [c[1:] for c in hc])
+        if isinstance(case.get("tok_relabel"), int):
+            c = rebuild(rc, hc)
+            _relabel(c, -case["tok_relabel"])
+            c["tok_relabel"] = None
+            yield c
         for k, v in (("entry", "functional"), ("batch_first", False), ("norm", False), ("include_eos", False),
                      ("exclude_last", False), ("mem", "contig"), ("tok_dtype", "int64"),
-                     ("omit_defaults", False)):
+                     ("omit_defaults", False), ("warn", "false")):
             if k in case and case[k] != v:
                 yield rebuild(rc, hc, **{k: v})
         if case["eos"] is not None and all(case["eos"] not in c for c in rc + hc):
             yield rebuild(rc, hc, eos=None)
+
+
+def _warn_kw(case):
+    w = case.get("warn", "false")
+    return {} if w == "default" else {"warn": w == "true"}
+
+
+def _relabel(case, how):
+    """apply an injective relabelling of the token ids to ref, hyp and eos (in place)"""
+    f = (lambda t: -1 - t) if how == "neg" else (lambda t: how + t)
+    case["ref"], case["hyp"] = _map(case["ref"], f), _map(case["hyp"], f)
+    if case["eos"] is not None:
+        case["eos"] = f(case["eos"])
+    case["tok_relabel"] = how
+
+
+def _relabel_class(how):
+    if how is None:
+        return "small"
+    if how == "neg":
+        return "negative"
+    for name, lim in (("~2^8", 2 ** 9), ("~2^11", 2 ** 12), ("~2^15/16", 2 ** 17), ("~2^24", 2 ** 25),
+                      ("~2^31/32", 2 ** 33), ("~2^53", 2 ** 54)):
+        if how < lim:
+            return name
+    return "~2^63"
+
+
+def _size_class(n):
+    """sizes up to 8 literally; beyond, the classes around the powers of two"""
+    if n <= 8:
+        return str(n)
+    for e in (64, 128, 256):
+        if e - 1 <= n <= e + 2:
+            return str(n)
+    for lo, hi in ((9, 62), (67, 126), (131, 199), (200, 254), (259, 999)):
+        if lo <= n <= hi:
+            return f"{lo}..{hi}"
+    return "1000+"
 
 
 def _numel(shape):
@@ -901,6 +1191,26 @@ def _close(a, b, rtol=1e-5, atol=5e-6):
     if a is None or b is None:
         return False
     return abs(a - b) <= atol + rtol * max(abs(a), abs(b))
+
+
+def _mer_atol(case, spec):
+    """absolute tolerance of the loss comparison. The implementation forms er - mean(er) in float32:
+    the rounding of mean(er) (half an ulp of the LARGEST error rate) survives the cancellation, so the
+    absolute error grows with the magnitude of the error rates (edit counts of long un-normalised
+    pairs), not with the magnitude of the result. 5e-6 on the original domain (error rates <= 6 there:
+    2^-22 * 6 * 3 < 5e-6, nothing is loosened), 2^-22 * (largest possible error rate of the case, from
+    the ORACLE: most edits among optimal alignments / reference length) beyond; a 'sum' adds N rows,
+    each weighted by softmax weights that sum to 1."""
+    big = Fraction(0)
+    for row in spec:
+        for cell in row:
+            info = cell["pair"]
+            e = Fraction(max(info["max_edits"], int(Fraction(info["lev_unit"]))))
+            if case["norm"]:
+                e = e / info["ref_len"] if info["ref_len"] else Fraction(1)
+            big = max(big, e)
+    rows = case["N"] if case["reduction"] == "sum" else 1
+    return max(5e-6, float(big) * rows / 2 ** 22)
 
 
 def _show(x):
